@@ -24,6 +24,7 @@ Inductive stage := Created | WaitAddr | Dialing (a : Z).
 Record cst := mkC {
   tgt : Z;                      (* cfg.TargetOutbound *)
   maxf : Z;                     (* maxFailedAttempts *)
+  hasban : bool;                (* cfg.BanAddress != nil (true in the server's configuration) *)
   next : Z;                     (* connReqCount *)
   pend : list Z;                (* pending (keys) *)
   conns : list (Z * Z);         (* conns: id -> address, in order of establishment *)
@@ -62,33 +63,37 @@ Fixpoint conn_del (l : list (Z * Z)) (id : Z) : list (Z * Z) :=
   match l with [] => [] | (i, a) :: t => if i =? id then t else (i, a) :: conn_del t id end.
 
 (* field updates *)
-Definition with_tasks s t := mkC (tgt s) (maxf s) (next s) (pend s) (conns s) t (timers s) (failed s) (gfailed s) (bans s) (canceled s) (dials s).
-Definition with_pend s p := mkC (tgt s) (maxf s) (next s) p (conns s) (tasks s) (timers s) (failed s) (gfailed s) (bans s) (canceled s) (dials s).
+Definition with_tasks s t := mkC (tgt s) (maxf s) (hasban s) (next s) (pend s) (conns s) t (timers s) (failed s) (gfailed s) (bans s) (canceled s) (dials s).
+Definition with_pend s p := mkC (tgt s) (maxf s) (hasban s) (next s) p (conns s) (tasks s) (timers s) (failed s) (gfailed s) (bans s) (canceled s) (dials s).
 
 (* go cm.NewConnReq(): a new task with the next id *)
 Definition spawn (s : cst) : cst :=
-  mkC (tgt s) (maxf s) (next s + 1) (pend s) (conns s) (tasks s ++ [(next s + 1, Created)]) (timers s)
+  mkC (tgt s) (maxf s) (hasban s) (next s + 1) (pend s) (conns s) (tasks s ++ [(next s + 1, Created)]) (timers s)
       (failed s) (gfailed s) (bans s) (canceled s) (dials s).
 
 (* a request whose id is no longer pending ends silently *)
 Definition drop_canceled (s : cst) : cst :=
-  mkC (tgt s) (maxf s) (next s) (pend s) (conns s) (tasks s) (timers s) (failed s) (gfailed s) (bans s) (canceled s + 1) (dials s).
+  mkC (tgt s) (maxf s) (hasban s) (next s) (pend s) (conns s) (tasks s) (timers s) (failed s) (gfailed s) (bans s) (canceled s + 1) (dials s).
 
 (* registerFailedConnectionTo: count the failure of address a; at the threshold ban it; in either
    case go NewConnReq() (since fix 7026b86 - before, the ban path returned without a successor) *)
 Definition failed_to (s : cst) (a : Z) : cst :=
   let f := (fget (failed s) a + 1) mod 65536 in
-  spawn (mkC (tgt s) (maxf s) (next s) (pend s) (conns s) (tasks s) (timers s) (fset (failed s) a f)
+  spawn (mkC (tgt s) (maxf s) (hasban s) (next s) (pend s) (conns s) (tasks s) (timers s) (fset (failed s) a f)
              (gfailed s) (if f >=? maxf s then bans s + 1 else bans s) (canceled s) (dials s)).
 
 (* registerFailedConnection: global count; at the threshold arm the retry timer, else go NewConnReq() *)
 Definition failed_global (s : cst) : cst :=
   let g := gfailed s + 1 in
-  let s1 := mkC (tgt s) (maxf s) (next s) (pend s) (conns s) (tasks s) (timers s) (failed s) g (bans s) (canceled s) (dials s) in
+  let s1 := mkC (tgt s) (maxf s) (hasban s) (next s) (pend s) (conns s) (tasks s) (timers s) (failed s) g (bans s) (canceled s) (dials s) in
   if g >=? maxf s then
-    mkC (tgt s1) (maxf s1) (next s1) (pend s1) (conns s1) (tasks s1) (timers s1 + 1) (failed s1) (gfailed s1)
+    mkC (tgt s1) (maxf s1) (hasban s1) (next s1) (pend s1) (conns s1) (tasks s1) (timers s1 + 1) (failed s1) (gfailed s1)
         (bans s1) (canceled s1) (dials s1)
   else spawn s1.
+
+(* handleFailedConn for a non-permanent request that has an address: per-address accounting when a
+   BanAddress callback is configured, otherwise the global counter *)
+Definition failed_conn (s : cst) (a : Z) : cst := if hasban s then failed_to s a else failed_global s.
 
 Inductive cev :=
 | Registered (id : Z)
@@ -112,7 +117,7 @@ Definition cstep (s : cst) (e : cev) : cst :=
     | Some WaitAddr =>
       if zmem id (pend s) then
         let s1 := with_tasks s (task_set (tasks s) id (Dialing a)) in
-        mkC (tgt s1) (maxf s1) (next s1) (pend s1) (conns s1) (tasks s1) (timers s1) (failed s1) (gfailed s1)
+        mkC (tgt s1) (maxf s1) (hasban s1) (next s1) (pend s1) (conns s1) (tasks s1) (timers s1) (failed s1) (gfailed s1)
             (bans s1) (canceled s1) (dials s1 + 1)
       else (* Connect: state is ConnCanceled *) drop_canceled (with_tasks s (task_del (tasks s) id))
     | _ => s
@@ -129,7 +134,7 @@ Definition cstep (s : cst) (e : cev) : cst :=
     | Some (Dialing a) =>
       let s1 := with_tasks s (task_del (tasks s) id) in
       if zmem id (pend s) then
-        mkC (tgt s1) (maxf s1) (next s1) (zrem id (pend s1)) (conns s1 ++ [(id, a)]) (tasks s1) (timers s1)
+        mkC (tgt s1) (maxf s1) (hasban s1) (next s1) (zrem id (pend s1)) (conns s1 ++ [(id, a)]) (tasks s1) (timers s1)
             (fset (failed s1) a 0) 0 (bans s1) (canceled s1) (dials s1)
       else drop_canceled s1
     | _ => s
@@ -138,16 +143,16 @@ Definition cstep (s : cst) (e : cev) : cst :=
     match task_stage (tasks s) id with
     | Some (Dialing a) =>
       let s1 := with_tasks s (task_del (tasks s) id) in
-      if zmem id (pend s) then failed_to s1 a else drop_canceled s1
+      if zmem id (pend s) then failed_conn s1 a else drop_canceled s1
     | _ => s
     end
   | Disconnect id =>
     match conn_addr (conns s) id with
     | Some a =>
       let c' := conn_del (conns s) id in
-      let s1 := mkC (tgt s) (maxf s) (next s) (pend s) c' (tasks s) (timers s) (failed s) (gfailed s)
+      let s1 := mkC (tgt s) (maxf s) (hasban s) (next s) (pend s) c' (tasks s) (timers s) (failed s) (gfailed s)
                     (bans s) (canceled s) (dials s) in
-      if zlen c' <? tgt s then failed_to (with_pend s1 (zadd id (pend s1))) a else s1
+      if zlen c' <? tgt s then failed_conn (with_pend s1 (zadd id (pend s1))) a else s1
     | None =>
       if zmem id (pend s) then with_pend s (zrem id (pend s)) else s
     end
@@ -155,14 +160,14 @@ Definition cstep (s : cst) (e : cev) : cst :=
     match conn_addr (conns s) id with
     | Some a =>
       (* connection closed, "we will make no further attempts with this request" *)
-      mkC (tgt s) (maxf s) (next s) (pend s) (conn_del (conns s) id) (tasks s) (timers s) (failed s) (gfailed s)
+      mkC (tgt s) (maxf s) (hasban s) (next s) (pend s) (conn_del (conns s) id) (tasks s) (timers s) (failed s) (gfailed s)
           (bans s) (canceled s + 1) (dials s)
     | None =>
       if zmem id (pend s) then with_pend s (zrem id (pend s)) else s
     end
   | TimerFire =>
     if timers s >? 0 then
-      spawn (mkC (tgt s) (maxf s) (next s) (pend s) (conns s) (tasks s) (timers s - 1) (failed s) (gfailed s)
+      spawn (mkC (tgt s) (maxf s) (hasban s) (next s) (pend s) (conns s) (tasks s) (timers s - 1) (failed s) (gfailed s)
                  (bans s) (canceled s) (dials s))
     else s
   end.
@@ -172,8 +177,8 @@ Definition crun (s : cst) (evs : list cev) : cst := fold_left cstep evs s.
 (* Start: TargetOutbound requests are launched *)
 Fixpoint spawn_n (n : nat) (s : cst) : cst :=
   match n with O => s | S k => spawn_n k (spawn s) end.
-Definition cinit (target mf : Z) : cst :=
-  spawn_n (Z.to_nat target) (mkC target mf 0 [] [] [] 0 [] 0 0 0 0).
+Definition cinit (target mf : Z) (hb : bool) : cst :=
+  spawn_n (Z.to_nat target) (mkC target mf hb 0 [] [] [] 0 [] 0 0 0 0).
 
 (* no request in flight and no timer armed: the manager will not act on its own any more *)
 Definition quiescent (s : cst) : Prop := tasks s = [] /\ timers s = 0.
@@ -195,7 +200,12 @@ Fixpoint server_alphabet (s : cst) (evs : list cev) : Prop :=
    The harness blocks every GetNewAddress / Dial call until the script releases it, hence between
    script events every task sits in WaitAddr or Dialing.  [settle] performs the internal steps the
    real manager performs on its own: armed timers fire, new tasks register. *)
-Inductive sev := SG (a : Z) | SE | SK (a : Z) | SF (a : Z) | SD (k : Z) | SZ | SC | SR (k : Z).
+Inductive sev := SG (a : Z) | SE | SK (a : Z) | SF (a : Z) | SD (k : Z) | SZ | SC | SR (k : Z)
+  (* bursts: several blocked calls are released at once, the manager handles the results back to
+     back (retry timers armed by one result are still pending when the next one is handled) *)
+  | SBE (n : Z)      (* up to n blocked GetNewAddress calls fail *)
+  | SBF              (* every blocked Dial is refused *)
+  | SBG (a : Z).     (* every blocked GetNewAddress call gets an address: a, a+1, ... (mod 251) *)
 
 Fixpoint first_stage (l : list (Z * stage)) (f : stage -> bool) : option Z :=
   match l with [] => None | (i, s) :: t => if f s then Some i else first_stage t f end.
@@ -220,6 +230,18 @@ Definition settle (s : cst) : cst :=
 
 Record sst := mkS { core : cst; lastdisc : option Z }.
 
+(* apply f to the first task in the given stage, at most [fuel] times, without settling in between;
+   returns the state and the number of applications *)
+Fixpoint burst (fuel : nat) (sel : stage -> bool) (f : cst -> Z -> Z -> cev) (s : cst) (k : Z) : cst * Z :=
+  match fuel with
+  | O => (s, k)
+  | S m => match first_stage (tasks s) sel with
+           | Some id => burst m sel f (cstep s (f s id k)) (k + 1)
+           | None => (s, k)
+           end
+  end.
+Definition is_dialing_any s := match s with Dialing _ => true | _ => false end.
+
 (* returns the new script state and whether the event applied *)
 Definition sstep (x : sst) (e : sev) : sst * bool :=
   let s := core x in
@@ -242,6 +264,15 @@ Definition sstep (x : sst) (e : sev) : sst * bool :=
                    | Some (id, _) => (mkS (settle (cstep s (Disconnect id))) (Some id), true)
                    | None => (x, false) end
             end
+  | SBE n =>
+    let r := burst (Z.to_nat (Z.min n (zlen (tasks s)))) is_wait (fun _ id _ => AddrFail id) s 0 in
+    if snd r =? 0 then (x, false) else (mkS (settle (fst r)) (lastdisc x), true)
+  | SBF =>
+    let r := burst (length (tasks s)) is_dialing_any (fun _ id _ => DialFail id) s 0 in
+    if snd r =? 0 then (x, false) else (mkS (settle (fst r)) (lastdisc x), true)
+  | SBG a =>
+    let r := burst (length (tasks s)) is_wait (fun _ id k => AddrOk id ((a + k) mod 251)) s 0 in
+    if snd r =? 0 then (x, false) else (mkS (settle (fst r)) (lastdisc x), true)
   | SR k => match conns s with
             | [] => (x, false)
             | _ => match nth_error (conns s) (Z.to_nat (k mod zlen (conns s))) with
@@ -261,7 +292,7 @@ Definition sstep (x : sst) (e : sev) : sst * bool :=
           else (x, false)
   end.
 
-Definition sinit (target mf : Z) : sst := mkS (settle (cinit target mf)) None.
+Definition sinit (target mf : Z) (hb : bool) : sst := mkS (settle (cinit target mf hb)) None.
 
 Fixpoint strace (x : sst) (evs : list sev) : list (bool * cst) :=
   match evs with
